@@ -14,6 +14,7 @@ func checkC13(r *Run) {
 	// the keys a bip44 wallet signs with are derived at the coordinates of the addresses they belong to
 	ruleBip44SecretCoordinates(r, "C13-R4")
 	ruleNullPredicates(r, "C13-R2", "cipher.Sig.Null")
+	ruleEntryVerify(r, "C13-R5")
 	const f = "wallet.SignTransaction"
 	fn := r.fn("C13-R1", f)
 	if fn == nil {
